@@ -91,9 +91,24 @@ impl Prop for P {
             cx.nontrivial();
         }
 
-        for (what, mode) in [("flat", BufMode::Flat { cap: n + 1 }), ("ring32k", BufMode::Ring { bits: 15, start: case.ring_start, fill_seed: case.fill_seed })] {
+        // zlib streams are also decoded with the checksum comparison switched off, and under a second
+        // chunking that cuts the input 1..5 bytes before the end of the stream (inside or right in
+        // front of the trailer), then byte by byte
+        let back = 1 + (case.fill_seed >> 8) as usize % 5;
+        let mut cut_chunks = vec![enc.saturating_sub(back) as u32];
+        cut_chunks.extend(std::iter::repeat(1u32).take(((case.fill_seed >> 12) % 7) as usize));
+        let cut_sched = DecSched { chunks: cut_chunks, budgets: case.sched.budgets.clone() };
+        let mut runs: Vec<(&str, BufMode, u32, &DecSched)> = vec![("flat", BufMode::Flat { cap: n + 1 }, zf, &case.sched), ("ring32k", BufMode::Ring { bits: 15, start: case.ring_start, fill_seed: case.fill_seed }, zf, &case.sched)];
+        if t.zlib {
+            cx.class("zlib:also-ignore-checksum+trailer-cut");
+            runs.push(("flat, ignore-adler", BufMode::Flat { cap: n + 1 }, zf | TINFL_FLAG_IGNORE_ADLER32, &case.sched));
+            runs.push(("flat, trailer cut", BufMode::Flat { cap: n + 1 }, zf, &cut_sched));
+            runs.push(("flat, ignore-adler, trailer cut", BufMode::Flat { cap: n + 1 }, zf | TINFL_FLAG_IGNORE_ADLER32, &cut_sched));
+            runs.push(("ring32k, ignore-adler, trailer cut", BufMode::Ring { bits: 15, start: case.ring_start, fill_seed: case.fill_seed }, zf | TINFL_FLAG_IGNORE_ADLER32, &cut_sched));
+        }
+        for (what, mode, zf, sched) in runs {
             let mut d = DecompressorOxide::new();
-            let r = drive(&mut d, &data, &DriveOpts { flags: zf, mode, sched: &case.sched, canary: false, max_calls: None, announce: true, flat_start: 0, probe_full_ring: false }, plain_hook)?;
+            let r = drive(&mut d, &data, &DriveOpts { flags: zf, mode, sched, canary: false, max_calls: None, announce: true, flat_start: 0, probe_full_ring: false }, plain_hook)?;
             vensure!(r.status == TINFLStatus::Done && r.out == plain, "c06:not-decoded", "[{what}] status {} out {} (want {n})", status_name(r.status), r.out.len());
             vensure!(r.consumed == enc, format!("c06:consumed-mismatch:{what}"), "[{what}] stream is {enc} bytes long ({} trailing bytes follow) but {} were reported consumed; final block ended at bit offset {}", case.tail.len(), r.consumed, t.r.blocks.last().map(|b| b.end_bit & 7).unwrap_or(0));
             // later calls consume nothing
@@ -108,9 +123,16 @@ impl Prop for P {
         cx.evals(2);
 
         // inflate()
-        for (variant, fin) in [("none", false), ("none-then-finish", true)] {
-            let mut st = InflateState::new_boxed(fmt_of(t.zlib));
-            let mut ch = case.sched.chunks.clone();
+        let mut variants = vec![("none", false, fmt_of(t.zlib), &case.sched.chunks), ("none-then-finish", true, fmt_of(t.zlib), &case.sched.chunks)];
+        if t.zlib {
+            variants.push(("none, ZLibIgnoreChecksum", false, miniz_oxide::DataFormat::ZLibIgnoreChecksum, &case.sched.chunks));
+            variants.push(("none, trailer cut", false, miniz_oxide::DataFormat::Zlib, &cut_sched.chunks));
+            variants.push(("none, ZLibIgnoreChecksum, trailer cut", false, miniz_oxide::DataFormat::ZLibIgnoreChecksum, &cut_sched.chunks));
+            variants.push(("none-then-finish, ZLibIgnoreChecksum, trailer cut", true, miniz_oxide::DataFormat::ZLibIgnoreChecksum, &cut_sched.chunks));
+        }
+        for (variant, fin, fmt, chunks) in variants {
+            let mut st = InflateState::new_boxed(fmt);
+            let mut ch = chunks.clone();
             if fin && (ch.is_empty() || ch[0] as usize >= data.len()) {
                 if data.len() < 2 {
                     continue;
